@@ -1,6 +1,7 @@
 """C10 - resource limits are enforced at exactly the consensus bounds (boundary shapes of the one-step harness + construction + script switches)."""
 import z3
 import C01 as base
+import C02
 import stubs, sesslib, refscript as R, refexec
 from irsym import is_sym
 from core import mkres, EncoderMismatch
@@ -9,11 +10,11 @@ ID = 'C10'
 TITLE = 'limit boundaries L-1/L/L+1: 520-byte pushes, 1000 stack+altstack items, 201 counted ops (nOpCount symbolic), 10,000-byte scripts at session construction, op-count reset at script switches; tapscript exemptions'
 TUS = base.TUS; SHIMS = base.SHIMS; NATIVE_TUS = base.NATIVE_TUS
 FUNCTIONS = ['StepScript(ScriptExecutionEnvironment&,...): push-size, op-count, stack-size checks', 'InterpreterEnv::InterpreterEnv (script-size check)', 'StepScript(InterpreterEnv&) script switch (op-count reset)']
-ASSUMPTIONS = base.ASSUMPTIONS + ['multisig key-count charges (20/21 keys, op count += keys) are decided by the C02 check, which shares the reference']
+ASSUMPTIONS = base.ASSUMPTIONS + ['multisig obligations use the signature oracle of C02 (uninterpreted)']
 OUTSIDE = ['limits reached through multi-step histories (covered inductively by the one-step pre-state being arbitrary)']
 BOUNDS = 'push payload 519/520/521 (PUSHDATA2/4) executed and unexecuted; stack+alt totals 998..1001 reached by 14 growing opcodes with 0..1000 items on either stack; nOpCount symbolic 0..201 for every opcode above OP_16; script sizes 9999/10000/10001 x 3 script versions'
 
-def setup(E): base.setup(E)
+def setup(E): C02.setup(E)
 
 GROW = {0x51: 0, 0x00: 0, 0x76: 1, 0x6e: 2, 0x6f: 3, 0x70: 4, 0x73: 1, 0x74: 0, 0x78: 2, 0x7d: 2, 0x82: 1, 0x6c: 0, 0x6b: 1, 0x4f: 0, 0x01: 0, 0x75: 1, 0x7c: 2}   # opcode -> arity
 
@@ -47,6 +48,12 @@ def obligations(tier, seed):
             k = base.ARITY.get(o, 0)
             add(op=o, sv=sv, lens=tuple([1] * k))
             add(op=o, sv=sv, lens=tuple([1] * k), vf=(1, 0))
+        # multisig key count: 19/20/21 keys, and its charge on the operation count (nOpCount symbolic), followed by one more counted opcode
+        if sv != R.TAPSCRIPT:
+            for o in (0xae, 0xaf):
+                for nk in (19, 20, 21):
+                    obs.append(dict(kind='msig', name='msig/op%02x/sv%d/keys%d' % (o, sv, nk), op=o, sv=sv, lens=tuple([0, 0] + [0] * nk + [1]), cvals={'1': [], str(2 + nk): [nk]}, vf=(0, None), tail=0, mode=0, pid='C10'))
+                obs.append(dict(kind='msig', name='msig/op%02x/sv%d/1of2' % (o, sv), op=o, sv=sv, lens=(0, 9, 1, 33, 33, 1), cvals={'2': [1], '5': [2]}, vf=(0, None), tail=0, mode=0, pid='C10'))
         # script size at construction
         for n in (9999, 10000, 10001):
             obs.append(dict(kind='ctor', name='ctor/sv%d/size%d' % (sv, n), sv=sv, size=n, pid='C10'))
@@ -57,6 +64,10 @@ def obligations(tier, seed):
 
 def run(E, ob):
     if ob['kind'] == 'step': return base.run(E, ob)
+    if ob['kind'] == 'msig':
+        o2 = dict(ob); o2['kind'] = 'sigop'; r = C02.run(E, o2)
+        if r.get('key'): r['key'] = r['key'].replace('C02:', 'C10:')
+        return r
     if ob['kind'] == 'ctor': return run_ctor(E, ob)
     return run_switch(E, ob)
 
@@ -104,6 +115,8 @@ def run_switch(E, ob):
 
 def replay(lib, ob, cex):
     if ob['kind'] == 'step': return base.replay(lib, ob, cex)
+    if ob['kind'] == 'msig':
+        o2 = dict(ob); o2['kind'] = 'sigop'; return C02.replay(lib, o2, cex)
     if ob['kind'] == 'ctor':
         req, _ = ctor_req(ob, cex); req[0:4] = [9, 0, 0, 0]
         rep = sesslib.native_call(lib, req, 9)
